@@ -41,7 +41,7 @@ theorem packed_factors_real :
 theorem packed_check_intersection_tie (s : Crystal ℝ) :
     Gen.packed_check_intersection s = s.checkIntersection := by
   unfold Gen.packed_check_intersection Crystal.checkIntersection Crystal.shells
-  simp only [shape_intersects_tie, shape_radius_tie, packed_cartesian_positions_tie, packed_relative_positions_tie, periodic_images_tie,
+  simp only [shape_transform_tie, shape_intersects_tie, shape_radius_tie, packed_cartesian_positions_tie, packed_relative_positions_tie, periodic_images_tie,
     cell_a_tie, cell_b_tie, cell_angle_tie, packed_factors_real.1, packed_factors_real.2]
   have hpairs := any_enumerate_skip (fun a b : Shape ℝ => a.intersects b)
     (s.cartPositions.map fun p => s.shape.transform p)
